@@ -115,7 +115,7 @@ def c01(tier):
 @prop("C05",
       functions=["h3NeighborRotations", "directionForNeighbor", "_h3Rotate60ccw", "_h3Rotate60cw", "_h3RotatePent60ccw", "_h3LeadingNonZeroDigit", "_rotate60ccw", "_isBaseCellPentagon", "_baseCellIsCwOffset", "_isBaseCellPolarPentagon"],
       bounds={"quick": "neighbour step closure/distinctness/symmetry: all valid cells of resolutions 0-5 (closure also 15; pentagon-neighbour symmetry 0-3) x 6 directions; k=1 through every disk entry point at res 0 (unsafe/ring variants also res 1), gridDisksUnsafe on every pair of origins at res 0, areNeighborCells on every pair of res-0 cells",
-              "thorough": "all valid cells of all 16 resolutions x 6 directions; k=1 disks and areNeighborCells end to end at res 0-3"},
+              "thorough": "all valid cells of all 16 resolutions x 6 directions; k=1 disks and areNeighborCells end to end at res 0-2"},
       outside="k>=2 beyond res 0, globe-wrapping disks, sufficiency of maxGridDiskSize at large k",
       assumptions=["cells are constructed as cell(r) + assume(isValidCell), justified by C01.H1"],
       stubs=[])
@@ -137,7 +137,7 @@ def c05(tier):
           "memset.0": 9, "memset.1": 9, "memset.2": 2, "nb_of.0": 8}
     for k in range(8):
         DL["harness.%d" % k] = 10
-    for r in (0, 1, 2, 3):
+    for r in (0, 1, 2):
         t = "quick" if r <= 1 else "thorough"
         for fn, nm in enumerate(("gridDisk", "gridDiskDistances", "gridDiskDistancesSafe", "gridDiskDistancesUnsafe", "gridRingUnsafe")):
             if t == "quick" and r == 1 and fn in (0, 1, 2):
@@ -219,7 +219,7 @@ def c04(tier):
 @prop("C13",
       functions=["cellToChildPos", "childPosToCell", "validateChildPos", "cellToChildrenSize", "cellToParent", "_ipow", "isPentagon", "iterStepChild"],
       bounds={"quick": "per (parentRes, childRes) pair with childRes-parentRes <= 2 (45 pairs): all valid parents x all int64 positions (FWD), all valid children (BWD, ORDER); error codes: all int resolutions; pentagon parents at the deep pairs (0,12) and (3,15) (FWD)",
-              "thorough": "FWD: all 136 (parentRes, childRes) pairs; BWD: depth <= 9; ORDER: depth <= 8 (deeper BWD/ORDER queries gave no verdict in 3000 s and are not run); pairs whose query exceeds the cap are listed as undecided"},
+              "thorough": "FWD: all 136 (parentRes, childRes) pairs; BWD: depth <= 6; ORDER: depth <= 5 (depth >= 12 BWD/ORDER queries gave no verdict in 3000 s; intermediate depths not calibrated, not run); pairs whose query exceeds the cap are listed as undecided"},
       outside="pairs reported undecided (deep 7^k division chains)",
       assumptions=["iterator invariant of C04 for the ORDER clause"],
       stubs=[])
@@ -232,7 +232,7 @@ def c13(tier):
             us = {"_ipow.0": 6, "childPosToCell.0": dd + 2, "childPosToCell.1": dd + 2, "cellToChildPos.0": dd + 2, "cellToChildPos.1": dd + 2,
                   "iterStepChild.0": dd + 3, "cellToParent.0": c + 2, "harness.0": 17, "spec_parent.0": 17, "spec_size.0": 17, "firstNZpos.0": 17, "spec_valid_cell.0": 17, "spec_is_pentagon.0": 17}
             for mode in ("FWD", "BWD", "ORDER"):
-                if (mode == "BWD" and dd > 9) or (mode == "ORDER" and dd > 8):
+                if (mode == "BWD" and dd > 6) or (mode == "ORDER" and dd > 5):
                     continue   # probed: no verdict within 3000 s (deep 7^k division chains); FWD covers these pairs
                 j = J("%s_%d_%d" % (mode.lower(), p, c), "C13_childpos.c", ["-D" + mode, "-DPRES=%d" % p, "-DCRES=%d" % c], unwind=17, us=us,
                       est=10 + 40 * dd, tier=t, timeout=3000 if tier == "thorough" else 900, sat="cadical",
@@ -385,7 +385,7 @@ def c15(tier):
 @prop("C09",
       functions=["gridDistance", "gridPathCellsSize", "cellToLocalIjk", "cellToLocalIj", "localIjToCell", "localIjkToCell", "ijkDistance", "ijToIjk", "ijkToIj", "_h3ToFaceIjkWithInitializedFijk", "_getBaseCellDirection", "h3NeighborRotations"],
       bounds={"quick": "a=b, resolution mismatch (any valid cell of another resolution), mode != 0: all valid cells of res 0,1; neighbours at distance 1: all neighbour pairs of res 0-2; symmetry: every pair of cells of res 0 and of res 1; Lipschitz half res 0; IJ round trip res 0-2, |i|,|j| <= 64",
-              "thorough": "neighbours: res 0-8 and 15 as far as they finish; symmetry and the Lipschitz half of the graph-distance characterisation: every pair of cells of res 0-2; IJ round trip res 0-4, |i|,|j| <= 64 (res 2: <= 400)"},
+              "thorough": "neighbours: res 0-6; symmetry and the Lipschitz half of the graph-distance characterisation: every pair of cells of res 0-2; IJ round trip res 0-4, |i|,|j| <= 64 (res 2: <= 400)"},
       outside="graph-distance equality beyond the local characterisation; IJ round trips above res 2 / beyond 2^6 (SAT cannot invert the coordinate arithmetic); unit-step clause",
       assumptions=["L-UP7 model for _upAp7Checked/_upAp7rChecked in the IJ round-trip job (lemma proved in the same run)"],
       stubs=["_upAp7*, _upAp7r* -> integer model (IJRT only)"])
@@ -397,7 +397,7 @@ def c09(tier):
         j = J("basic_r%d" % r, "C09_dist.c", ["-DBASIC", "-DRES=%d" % r], unwind=r + 2, us=LL, est=60 + 5 * r, mem="M", tier=("quick" if r <= 1 else "thorough"), bound="all valid cells of res %d (mismatching cell: any valid cell of any other resolution)" % r)
         js += with_witness(j) if r == 1 else [j]
     for r in ALLRES:
-        if r > 8 and r != 15:
+        if r > 6:
             continue
         t = "quick" if r <= 2 else "thorough"
         j = J("nbr_r%d" % r, "C09_dist.c", ["-DNBR", "-DRES=%d" % r], unwind=r + 2, us=LL, est=100 + 50 * r, tier=t, mem="M", timeout=3000, core=(r <= 5), bound="all neighbour pairs of res %d" % r)
@@ -408,8 +408,7 @@ def c09(tier):
         js += with_witness(j, tier=t) if r == 0 else [j]
         j = J("lip_r%d" % r, "C09_dist.c", ["-DLIP", "-DRES=%d" % r], unwind=r + 2, us=LL, est=200 + 600 * r, tier=("quick" if r == 0 else "thorough"), mem="M", timeout=3400, bound="every (a, b, direction) of res %d" % r)
         js += with_witness(j, tier="quick") if r == 0 else [j]
-    for r in (3, 4):
-        js.append(J("lippent_r%d" % r, "C09_dist.c", ["-DLIP", "-DPENTBC", "-DRES=%d" % r], unwind=r + 2, us=LL, est=2000, tier="thorough", mem="M", timeout=3400, core=False, bound="origin on a pentagon base cell, target on another base cell, res %d, all directions" % r))
+    # lippent_r3/r4 (Lipschitz condition for pentagon-base-cell origins at res 3-4, harness mode LIP+PENTBC) gave no verdict in 3400 s - not registered
     js += up7_lemma(10, checked=True)
     for r in (0, 1, 2, 3, 4):
         t = "quick" if r <= 2 else "thorough"
@@ -464,7 +463,7 @@ C12_LOOPS = {"cellToLocalIjk.0": 7, "cellToLocalIjk.1": 7, "cellToLocalIjk.2": 7
 @prop("C12",
       functions=["every exported function listed in the job names; internal NEVER/ALWAYS/assert sites become proof obligations (build without NDEBUG)"],
       bounds={"quick": "arbitrary 64-bit words / ints / int64 / doubles. Single-word integer APIs: all 2^64 words. APIs walking the digits (disks k<=1, pairs, local IJ): words whose resolution field is 0 (every other bit arbitrary, incl. invalid digits, modes, base cells 122-127). compactCells: 3 arbitrary words; uncompactCells: 2 words, <= 14 outputs; cellToChildren: one level",
-              "thorough": "digit-walking APIs at resolution fields 0-5 and 15"},
+              "thorough": "digit-walking APIs at resolution fields 0-3; vertex / face APIs at 0-1 (class X)"},
       outside="k >= 2, larger sets, deeper children; every API that reaches trigonometry or the FP cell-boundary code (latLngToCell beyond argument validation, cellToLatLng, cellToBoundary, vertexToLatLng, areas, edge lengths, polygon functions, cellsToLinkedMultiPolygon): their integer prefixes are covered by C02/C03/C19 jobs, the FP kernels are not decided",
       assumptions=["malloc does not fail in these jobs (allocation failure is C17)", "S-TRIG stubs for greatCircleDistance*"],
       stubs=["sin, cos, asin, ... -> S-TRIG (GCDIST job only)"])
@@ -487,7 +486,7 @@ def c12(tier):
     js += [ub("compact_3", ["-DCOMPACT", "-DNW=3"], unwind=17, us=dict(C12_LOOPS, **{"compactCells.0": 5, "compactCells.1": 5, "compactCells.2": 5, "compactCells.3": 5, "compactCells.4": 5, "compactCells.5": 5, "compactCells.6": 3}), est=120, mem="M", timeout=1800, bound="3 arbitrary words")]
     js += [ub("gcdist", ["-DGCDIST"], est=20, bound="all doubles (S-TRIG)")]
     qres = (0,)
-    tres = (1, 2, 3, 4, 5, 15)
+    tres = (1, 2, 3)
     for r in qres + tres:
         t = "quick" if r in qres else "thorough"
         for fn, nm in enumerate(("gridDisk", "gridDiskDistances", "gridDiskDistancesSafe", "gridDiskUnsafe", "gridDiskDistancesUnsafe", "gridRingUnsafe")):
